@@ -312,8 +312,22 @@ where
         cur.insert(c.ch.choose(N_KEYS) as i32, c.ch.choose(N_VALS) as i32);
     }
     let var: Var<M> = st.var(M::of(&cur));
+    maybe_never(&mut c.ch, &[&var], trace);
     let built = build_generic::<M>(op, &var.watch()).expect("generic op");
     drive(&st, op, c, &mut cur, &mut BT::new(), &|m: &BT| var.set(M::of(m)), &|_m: &BT| {}, &built, fails, trace, flags);
+}
+
+
+/// decoder v2: a third of the cases give the input variable(s) Cutoff::Never, so that writing an
+/// equal map makes the operator recompute on an empty diff (its snapshot of the previous input
+/// must survive that round)
+fn maybe_never<T: Value>(ch: &mut Choices, vars: &[&Var<T>], trace: &mut Vec<String>) {
+    if crate::choice::dv() >= 2 && ch.flag(1, 3) {
+        for v in vars {
+            v.watch().set_cutoff(Cutoff::Never);
+        }
+        trace.push("input cutoff: Never (equal writes recompute the operator)".into());
+    }
 }
 
 #[derive(Default)]
@@ -528,6 +542,7 @@ pub fn run_diff_case(bytes: &[u8], tier: Tier) -> (Vec<Failure>, Vec<String>, bo
             let (mut a, mut b) = (BT::new(), BT::new());
             let va = st.var(a.clone());
             let vb = st.var(b.clone());
+            maybe_never(&mut c.ch, &[&va, &vb], &mut trace);
             let i = va.incr_merge(&vb.watch(), merge_fn);
             let built = Built { observe: reader_map::<BT>(&i) };
             drive(&st, op, &mut c, &mut a, &mut b, &|m| va.set(m.clone()), &|m| vb.set(m.clone()), &built, &mut fails, &mut trace, &mut flags);
@@ -537,6 +552,7 @@ pub fn run_diff_case(bytes: &[u8], tier: Tier) -> (Vec<Failure>, Vec<String>, bo
             let (mut a, mut b) = (BT::new(), BT::new());
             let va = st.var(OrdMap::<i32, i32>::new());
             let vb = st.var(OrdMap::<i32, i32>::new());
+            maybe_never(&mut c.ch, &[&va, &vb], &mut trace);
             let i = va.incr_merge(&vb.watch(), merge_fn);
             let built = Built { observe: reader_map::<OrdMap<i32, i32>>(&i) };
             drive(&st, op, &mut c, &mut a, &mut b, &|m| va.set(TM::of(m)), &|m| vb.set(TM::of(m)), &built, &mut fails, &mut trace, &mut flags);
@@ -545,6 +561,7 @@ pub fn run_diff_case(bytes: &[u8], tier: Tier) -> (Vec<Failure>, Vec<String>, bo
             let st = IncrState::new();
             let mut a = BT::new();
             let va = st.var(OrdMap::<i32, i32>::new());
+            maybe_never(&mut c.ch, &[&va], &mut trace);
             let two = |o: Observer<(OrdMap<i32, i32>, OrdMap<i32, i32>)>| -> Reader {
                 Box::new(move || o.try_get_value().map(|(l, r)| Out::Two(l.bt(), r.bt())).map_err(|e| format!("{e:?}")))
             };
